@@ -265,7 +265,7 @@ func (w *signWorld) str(pos string) string {
 func (w *signWorld) opts(maxSteps int) *gen.Opts {
 	p := w.c.Plan
 	return &gen.Opts{T: p, Str: w.str, MaxSteps: maxSteps, MaxDepth: 3, ScalarStep: true, TopExtras: p.Draw(2, "cfg:topextras") == 1,
-		PipeEnv: true, BigMaps: p.Draw(4, "cfg:bigmaps") == 3, TypeKey: true, Aliases: true, NonStrEnv: p.Draw(2, "cfg:nonstr") == 1}
+		PipeEnv: true, BigMaps: p.Draw(4, "cfg:bigmaps") == 3, TypeKey: true, Aliases: true, NonStrEnv: p.Draw(2, "cfg:nonstr") == 1, PlainKeys: true}
 }
 
 // ---------------------------------------------------------------------------
